@@ -15,14 +15,17 @@ use hxlib::*;
 #[derive(Clone, Debug)]
 enum Cond { Ngt(i64), Neq(i64), Ieq(i64), Igt(i64), Zt, Zf }
 #[derive(Clone, Debug)]
-enum Expr { Atom, Safe(u8), Fail, Call(usize), Bin(Box<Expr>, Box<Expr>) }
+enum Expr { /// no safepoint: 0 plain assignment, 1 a native that allocates (string.repeat), 2 an array constructor + method
+    Atom(u8), Safe(u8), Fail, Call(usize), Bin(Box<Expr>, Box<Expr>) }
 #[derive(Clone, Debug)]
 enum Stmt { X(Expr), If(Cond, Vec<Stmt>, Vec<Stmt>), Loop(bool, u32, Vec<Stmt>), Brk, Cont, Ret(Expr), Def(usize) }
 #[derive(Clone, Debug, PartialEq)]
 enum Kind { Body, Lam, LeafRet, LeafImp }
 #[derive(Clone, Debug)]
 struct Func { nogc: bool, parent: i64, kind: Kind, body: Vec<Stmt>, /// inline decorators: 0 none, 1 @inline first, 2 @inline_always first, 3 @inline last, 4 @inline_always last (relative to @no_gc)
-    deco: u8 }
+    deco: u8,
+    /// nested function / lambda that captures a local of its parent (becomes a closure: MakeClosure, upvalues)
+    cap: bool }
 #[derive(Clone, Debug)]
 struct Prog { n0: i64, fns: Vec<Func>, main: Vec<Stmt> }
 
@@ -95,7 +98,7 @@ fn p_cond(x: &Sx) -> Result<Cond, String> {
 fn p_expr(x: &Sx) -> Result<Expr, String> {
     let (h, r) = sx_head(x);
     Ok(match h {
-        "atom" => Expr::Atom, "safe0" => Expr::Safe(0), "safe1" => Expr::Safe(1), "fail" => Expr::Fail,
+        "atom" => Expr::Atom(0), "atom1" => Expr::Atom(1), "atom2" => Expr::Atom(2), "safe0" => Expr::Safe(0), "safe1" => Expr::Safe(1), "fail" => Expr::Fail,
         "call" => Expr::Call(sx_int(&r[0])? as usize),
         "bin" => Expr::Bin(Box::new(p_expr(&r[0])?), Box::new(p_expr(&r[1])?)),
         _ => return Err(format!("expr? {}", h)),
@@ -130,14 +133,17 @@ fn p_prog(x: &Sx) -> Result<Prog, String> {
             "fn" => {
                 let nogc = matches!(&a[0], Sx::A(s) if s == "nogc");
                 let parent = sx_int(&a[1])?;
+                let mut cap = false;
                 let (kind, deco) = match &a[2] { Sx::A(s) => {
                     let mut it = s.split('@');
-                    let k = match it.next().unwrap_or("") {
+                    let k0 = it.next().unwrap_or("");
+                    cap = k0.ends_with("+c");
+                    let k = match k0.trim_end_matches("+c") {
                         "body" => Kind::Body, "lam" => Kind::Lam, "leafret" => Kind::LeafRet, "leafimp" => Kind::LeafImp,
                         k => return Err(format!("kind? {}", k)) };
                     (k, it.next().and_then(|d| d.parse::<u8>().ok()).unwrap_or(0))
                 }, _ => return Err("kind".into()) };
-                fns.push(Func { nogc, parent, kind, body: p_block(&a[3..])?, deco });
+                fns.push(Func { nogc, parent, kind, body: p_block(&a[3..])?, deco, cap: cap && parent >= 0 });
             }
             "main" => main = p_block(a)?,
             _ => return Err(format!("prog item? {}", h)),
@@ -150,7 +156,7 @@ fn s_cond(c: &Cond) -> String {
               Cond::Igt(k) => format!("(igt {})", k), Cond::Zt => "zt".into(), Cond::Zf => "zf".into() }
 }
 fn s_expr(e: &Expr) -> String {
-    match e { Expr::Atom => "atom".into(), Expr::Safe(k) => format!("safe{}", k), Expr::Fail => "fail".into(),
+    match e { Expr::Atom(0) => "atom".into(), Expr::Atom(k) => format!("atom{}", k), Expr::Safe(k) => format!("safe{}", k), Expr::Fail => "fail".into(),
               Expr::Call(f) => format!("(call {})", f), Expr::Bin(a, b) => format!("(bin {} {})", s_expr(a), s_expr(b)) }
 }
 fn s_block(b: &[Stmt]) -> String { b.iter().map(s_stmt).collect::<Vec<_>>().join(" ") }
@@ -169,7 +175,8 @@ fn s_prog(p: &Prog) -> String {
     let mut o = format!("(prog {}", p.n0);
     for f in &p.fns {
         let k = match f.kind { Kind::Body => "body", Kind::Lam => "lam", Kind::LeafRet => "leafret", Kind::LeafImp => "leafimp" };
-        let k = if f.deco != 0 { format!("{}@{}", k, f.deco) } else { k.to_string() };
+        let k = format!("{}{}", k, if f.cap { "+c" } else { "" });
+        let k = if f.deco != 0 { format!("{}@{}", k, f.deco) } else { k };
         o.push_str(&format!(" (fn {} {} {} {})", if f.nogc { "nogc" } else { "gc" }, f.parent, k, s_block(&f.body)));
     }
     o.push_str(&format!(" (main {}))", s_block(&p.main)));
@@ -183,7 +190,7 @@ fn c_cond(c: &Cond) -> String {
               Cond::Zt => "CZt".into(), Cond::Zf => "CZf".into() }
 }
 fn c_expr(e: &Expr) -> String {
-    match e { Expr::Atom => "EAtom".into(), Expr::Safe(_) => "ESafe".into(), Expr::Fail => "EFail".into(),
+    match e { Expr::Atom(_) => "EAtom".into(), Expr::Safe(_) => "ESafe".into(), Expr::Fail => "EFail".into(),
               Expr::Call(f) => format!("ECall {}", f), Expr::Bin(a, b) => format!("EBin ({}) ({})", c_expr(a), c_expr(b)) }
 }
 fn c_block(b: &[Stmt]) -> String { format!("sq [{}]", b.iter().map(c_stmt).collect::<Vec<_>>().join("; ")) }
@@ -224,7 +231,7 @@ impl<'a> Pr<'a> {
     /// expression in value position; `top` = directly the operand of return
     fn expr(&self, e: &Expr, main: bool, top: bool) -> String {
         match e {
-            Expr::Atom => self.n(main),
+            Expr::Atom(_) => self.n(main),
             Expr::Safe(1) if top => "acc + sx".into(),
             Expr::Safe(_) => "alloc(8)".into(),
             Expr::Fail => format!("10 / {}", self.z(main)),
@@ -238,7 +245,11 @@ impl<'a> Pr<'a> {
     }
     fn stmt(&mut self, s: &Stmt, ind: usize, main: bool, iv: &Option<String>) {
         match s {
-            Stmt::X(Expr::Atom) => { let t = format!("zq = {}", self.n(main)); self.line(ind, &t) }
+            Stmt::X(Expr::Atom(0)) => { let t = format!("zq = {}", self.n(main)); self.line(ind, &t) }
+            // allocation WITHOUT a safepoint: natives, array constructors and methods never reach maybe_collect
+            Stmt::X(Expr::Atom(1)) => self.line(ind, "zs = sx.repeat(3)"),
+            Stmt::X(Expr::Atom(_)) => { self.loopn += 1; let a = format!("a{}", self.loopn);
+                self.line(ind, &format!("let {} = Array<Int>(3)", a)); self.line(ind, &format!("zq = {}.len()", a)) }
             Stmt::X(Expr::Safe(0)) => self.line(ind, "free(alloc(8))"),
             Stmt::X(Expr::Safe(_)) => self.line(ind, "acc = acc + sx"),
             Stmt::X(Expr::Fail) => { let t = format!("zq = 10 / {}", self.z(main)); self.line(ind, &t) }
@@ -287,8 +298,13 @@ impl<'a> Pr<'a> {
         match fu.kind {
             Kind::LeafRet => self.line(ind, &format!("fn {}(a, b) {{ return a + b }}", nm)),
             Kind::LeafImp => self.line(ind, &format!("fn {}(a, b) {{ a + b }}", nm)),
-            Kind::Lam => { self.line(ind, &format!("let {} = fn(n, z) {{", nm)); self.block(&fu.body, ind + 1, false, &None); self.line(ind, "}") }
-            Kind::Body => { self.line(ind, &format!("fn {}(n, z) {{", nm)); self.block(&fu.body, ind + 1, false, &None); self.line(ind, "}") }
+            Kind::Lam | Kind::Body => {
+                if fu.kind == Kind::Lam { self.line(ind, &format!("let {} = fn(n, z) {{", nm)); } else { self.line(ind, &format!("fn {}(n, z) {{", nm)); }
+                // a local for the children that capture, and the use of the parent's local by a capturing function
+                if self.p.fns.iter().any(|c| c.parent == f as i64 && c.cap) { self.line(ind + 1, &format!("let cp{} = n", f)); }
+                if fu.cap && fu.parent >= 0 { self.line(ind + 1, &format!("zq = cp{}", fu.parent)); }
+                self.block(&fu.body, ind + 1, false, &None); self.line(ind, "}")
+            }
         }
     }
 }
@@ -301,7 +317,7 @@ fn source_of(p: &Prog, tag: &str) -> String {
     pr.line(0, "zq");
     pr.out
 }
-const PRELUDE: &str = "let mut acc = \"\"\nlet mut sx = \"x\"\nlet mut zq = 0\nlet mut zz = 0\nlet mut zb = false\nacc = acc + sx\nzq = zq + zz\nzb = zq == 1\nacc\n";
+const PRELUDE: &str = "let mut acc = \"\"\nlet mut sx = \"x\"\nlet mut zs = \"\"\nlet mut zq = 0\nlet mut zz = 0\nlet mut zb = false\nacc = acc + sx\nzs = sx\nzq = zq + zz\nzb = zq == 1\nacc\n";
 
 // ------------------------------------------------------------------ the harness's own interpreter
 #[derive(PartialEq, Clone, Copy, Debug)]
@@ -327,7 +343,7 @@ impl<'a> Sim<'a> {
         self.steps += 1;
         if self.steps > self.limit { return Out::Limit; }
         match e {
-            Expr::Atom => Out::Normal,
+            Expr::Atom(_) => Out::Normal,
             Expr::Safe(_) => { self.safepoint(); Out::Normal }
             Expr::Fail => Out::Err,
             Expr::Call(f) => self.call(*f, n - 1),
@@ -423,7 +439,12 @@ impl<'a> Gen<'a> {
         }
         let f = from as usize;
         c.extend(self.children(from).into_iter().map(|g| (g, false)));
-        if self.parent[f] >= 0 { return c; }
+        if self.parent[f] >= 0 {
+            // a nested function may call top-level functions defined before its own top-level ancestor (acyclic) and leaves
+            let top = self.top_of(f);
+            c.extend((0..self.nf).filter(|&g| self.parent[g] < 0 && g < top).map(|g| (g, false)));
+            return c;
+        }
         for g in (0..self.nf).filter(|&g| self.parent[g] < 0) {
             if self.leaf[g] { if g < f || !has_nested { c.push((g, false)); } continue; }
             if has_nested {
@@ -454,21 +475,21 @@ impl<'a> Gen<'a> {
     fn ret_expr(&mut self, from: i64, depth: u32) -> Expr {
         let restricted = !self.known && from >= 0 && self.nogc[from as usize];
         let r = self.rng.below(100);
-        if restricted { return if r < 90 || self.fails == 0 { Expr::Atom } else { self.fails -= 1; Expr::Fail }; }
-        if r < 35 { Expr::Atom }
+        if restricted { return if r < 90 || self.fails == 0 { Expr::Atom(0) } else { self.fails -= 1; Expr::Fail }; }
+        if r < 35 { Expr::Atom(0) }
         else if r < 55 { Expr::Safe(self.rng.below(2) as u8) }
         else if r < 80 {
             // a call in return position must terminate: only forward or child calls
             // not a leaf: `return leaf(acc, sx)` next to `return n` unifies the leaf's result with Int and the typed
             // fast path then adds string pointers as ints (silently in release builds) -- a defect of another property
             let c: Vec<(usize, bool)> = self.callees(from, true).into_iter().filter(|&(g, _)| !self.leaf[g]).collect();
-            if c.is_empty() { Expr::Atom } else { Expr::Call(self.rng.pick(&c).0) }
+            if c.is_empty() { Expr::Atom(0) } else { Expr::Call(self.rng.pick(&c).0) }
         }
-        else if r < 85 && self.fails > 0 { self.fails -= 1; Expr::Fail }
+        else if r < 92 && self.fails > 0 { self.fails -= 1; Expr::Fail }
         // two-operand expressions (helper `p2`) are accepted in corpus files but not generated: a helper whose
         // parameters receive strings at one call site and ints at another makes the typed fast paths misread
         // values (a defect of another property) and the run silently skips concatenations
-        else { let _ = depth; Expr::Atom }
+        else { let _ = depth; Expr::Atom(0) }
     }
     fn block(&mut self, from: i64, depth: u32, in_loop: bool, max_len: u64) -> Vec<Stmt> {
         let len = self.rng.below(max_len + 1);
@@ -477,7 +498,7 @@ impl<'a> Gen<'a> {
             let last = k + 1 == len;
             let r = self.rng.below(100);
             let s = if r < 28 { Stmt::X(Expr::Safe(self.rng.below(2) as u8)) }
-            else if r < 50 { match self.call_stmt(from) { Some(s) => s, None => Stmt::X(Expr::Atom) } }
+            else if r < 50 { match self.call_stmt(from) { Some(s) => s, None => Stmt::X(Expr::Atom(0)) } }
             else if r < 66 && depth < 3 {
                 let c = self.cond(from, in_loop);
                 let t = self.block(from, depth + 1, in_loop, 3);
@@ -492,11 +513,11 @@ impl<'a> Gen<'a> {
                 // abrupt exit as the last statement of a block
                 let pick = self.rng.below(if in_loop { 3 } else { 1 });
                 if pick == 0 && from >= 0 { Stmt::Ret(self.ret_expr(from, 0)) }
-                else if pick == 1 { Stmt::Brk } else if in_loop { Stmt::Cont } else { Stmt::X(Expr::Atom) }
+                else if pick == 1 { Stmt::Brk } else if in_loop { Stmt::Cont } else { Stmt::X(Expr::Atom(0)) }
             }
             else if r < 91 && self.fails > 0 { self.fails -= 1; Stmt::X(Expr::Fail) }
             else if r < 94 && from >= 0 { Stmt::X(self.ret_expr(from, 1)) }
-            else { Stmt::X(Expr::Atom) };
+            else { Stmt::X(Expr::Atom(self.rng.below(3) as u8)) };
             b.push(s);
         }
         b
@@ -531,7 +552,7 @@ fn gen_prog(rng: &mut Rng, known: bool) -> Prog {
         g.parent.push(parent);
         kinds.push(kind);
     }
-    g.fails = if g.rng.chance(1, 4) { 1 + g.rng.below(2) as u32 } else { 0 };
+    g.fails = if g.rng.chance(1, 3) { 1 + g.rng.below(3) as u32 } else { 0 };
     let mut fns = vec![];
     for f in 0..nf {
         let mut body = vec![];
@@ -551,7 +572,8 @@ fn gen_prog(rng: &mut Rng, known: bool) -> Prog {
         // half of the leaf functions and a fifth of the others carry @inline / @inline_always, before or after @no_gc
         let deco = if kinds[f] == Kind::Lam { 0 } else if g.leaf[f] { if g.rng.chance(1, 2) { 1 + g.rng.below(4) as u8 } else { 0 } }
                    else if g.rng.chance(1, 5) { 1 + g.rng.below(4) as u8 } else { 0 };
-        fns.push(Func { nogc: g.nogc[f], parent: g.parent[f], kind: kinds[f].clone(), body, deco });
+        let cap = g.parent[f] >= 0 && g.rng.chance(1, 2);
+        fns.push(Func { nogc: g.nogc[f], parent: g.parent[f], kind: kinds[f].clone(), body, deco, cap });
     }
     let mut main = g.block(-1, 1, false, 4);
     if let Some(s) = g.call_stmt(-1) { let pos = g.rng.below(main.len() as u64 + 1) as usize; main.insert(pos, s); }
@@ -561,7 +583,7 @@ fn gen_prog(rng: &mut Rng, known: bool) -> Prog {
 
 // ------------------------------------------------------------------ running
 #[cfg(vbxq_aelys_lang_verif)]
-fn run_session(sid: &str, progs: &[Prog], opts: &[u32]) {
+fn run_session(sid: &str, progs: &[Prog], opts: &[u32], host_depth: u64) {
     use aelys_runtime::verif;
     use hxlib::runner::*;
     for &opt in opts {
@@ -569,6 +591,8 @@ fn run_session(sid: &str, progs: &[Prog], opts: &[u32]) {
         verif::gc_mode_set(2, 0);
         let r0 = run_on_vm(&mut vm, PRELUDE, opt, 1_000_000);
         if r0.class != "ok" { println!("{}\t-\t{}\tPRELUDEFAIL {}", sid, opt, esc(&r0.detail)); continue; }
+        // the host itself may have opened regions (VM::enter_no_gc): every input then starts at that depth and must end there
+        for _ in 0..host_depth { vm.enter_no_gc(); }
         for (k, p) in progs.iter().enumerate() {
             let src = source_of(p, &format!("{}", k));
             let d0 = vm.no_gc_depth() as u64;
@@ -653,18 +677,23 @@ fn main() {
             for file in files.split(',').filter(|s| !s.is_empty()) {
                 let text = std::fs::read_to_string(file).expect("read corpus");
                 let items = sx_parse(&text).expect("corpus syntax");
+                // optional first item (host K): the host opens K regions before the first input
+                let mut host_depth = 0u64;
+                let items: Vec<Sx> = items.into_iter().filter(|x| { let (h, r) = sx_head(x); if h == "host" { host_depth = sx_int(&r[0]).unwrap_or(0) as u64; false } else { true } }).collect();
                 let progs: Vec<Prog> = items.iter().map(|x| p_prog(x).expect("corpus program")).collect();
                 let sid = format!("corpus:{}", std::path::Path::new(file).file_name().unwrap().to_string_lossy());
-                run_session(&sid, &progs, &opts);
+                run_session(&sid, &progs, &opts, host_depth);
             }
             return;
         }
         let mut rng = Rng::new(seed);
         for s in 0..sessions {
+            // one session in five starts inside regions opened by the host (1, 2 or 70 -- beyond the old saturation bound of 64)
+            let host_depth = if rng.chance(1, 5) { *rng.pick(&[1u64, 2, 70]) } else { 0 };
             let known = true;   // unrestricted: the three former defect classes are repaired and part of the stream
             let n_in = 1 + rng.below(4);
             let mut progs = vec![];
-            let mut d = 0u64;
+            let mut d = host_depth;
             for _ in 0..n_in {
                 // rejection: programs must terminate quickly
                 loop {
@@ -677,7 +706,7 @@ fn main() {
                     break;
                 }
             }
-            run_session(&format!("s{}", s), &progs, &opts);
+            run_session(&format!("{}s{}", if host_depth > 0 { format!("h{}", host_depth) } else { String::new() }, s), &progs, &opts, host_depth);
         }
     }).unwrap();
     handle.join().unwrap();
